@@ -40,7 +40,11 @@ def simple_jobs(family, qcases, qshards=12, tshards=32, nosse_frac=3, extra=None
             return [TraceJob(SMALL, family, shards=qshards, args=['--cases', qcases] + ex),
                     TraceJob(NOSSE, family, shards=max(2, qshards // nosse_frac), args=['--cases', max(40, qcases // nosse_frac)] + ex)]
         return [TraceJob(SMALL, family, shards=tshards, timeout=3400, args=ex), TraceJob(HOST, family, shards=tshards // 2, timeout=3400, args=ex),
-                TraceJob(NOSSE, family, shards=tshards // 2, timeout=3400, args=ex)]
+                TraceJob(NOSSE, family, shards=tshards // 2, timeout=3400, args=ex),
+                # a second and third independent sample of the family's case space in the small-cache build, and one in another cache triple
+                TraceJob(SMALL, family, shards=tshards, timeout=3400, args=ex + ['--seed', seed + 1000], label='%s@%s#s2' % (family, SMALL)),
+                TraceJob(SMALL, family, shards=tshards, timeout=3400, args=ex + ['--seed', seed + 2000], label='%s@%s#s3' % (family, SMALL)),
+                TraceJob('c128_sse_cache_seq', family, shards=tshards // 2, timeout=3400, args=ex + ['--seed', seed + 3000], label='%s@c128' % family)]
     return f
 
 
